@@ -22,9 +22,9 @@ the supply of fresh ids.  Strings are `List Char` (as in the units model).  Floa
 IEEE bit patterns (`Nat`) because C10 is about storing and returning values unchanged (NaN payloads,
 signed zero, infinities); no arithmetic is done on them.
 
-Errors that the real code raises *after* it already changed the dataset (integer overflow in
-`np.array(vals, dtype=int64)` after the resize in the `values` setter, an embedded NUL refused by
-h5py's vlen-string conversion) are modelled with the changed state, exactly as the code behaves.
+The one error the real code raises *after* it already changed the dataset (an embedded NUL refused
+by h5py's vlen-string conversion, after the resize) is modelled with the changed state, exactly as
+the code behaves.
 -/
 namespace Nix.PropVals
 open Nix.Units (Str)
@@ -286,16 +286,18 @@ def checkNewValueTypes (pd : DType) (inp : Input) : Except Err Unit :=
 
 def PropRec.clear (p : PropRec) : PropRec := { p with vals := [] }
 
-/-- after the check passed: resize to `n`, convert, write (`property.py:278-280`) -/
+/-- after the check passed: convert (`np.array(vals, dtype=vtype)`), resize to `n`, write
+(`property.py:278-283`).  The conversion precedes the resize; h5py's refusal of an embedded NUL
+comes after it. -/
 def assignList (p : PropRec) (vs : List PyVal) : PropRec × Except Err Unit :=
   match checkNewValueTypes p.dtype (.list vs) with
   | .error e => (p, .error e)
   | .ok _ =>
-    let p1 := { p with vals := resize p.dtype p.vals vs.length }
     match convertAll p.dtype vs with
-    | .error e => (p1, .error e)
+    | .error e => (p, .error e)
     | .ok cells =>
-      if cells.any Cell.hasNul then (p1, .error .valueError)
+      if cells.any Cell.hasNul then
+        ({ p with vals := resize p.dtype p.vals vs.length }, .error .valueError)
       else ({ p with vals := cells }, .ok ())
 
 /-- the `values` setter (`property.py:259-280`) -/
@@ -547,8 +549,7 @@ def newProp (st : State) (name : Str) (d : DType) (n : Nat) : PropRec :=
 
 /-- `Section.create_property` without `copy_from` (`section.py:127-169`) and
 `Property.create_new` (`property.py:98-118`).  When the final `prop.values = vals` fails (integer
-overflow, embedded NUL — never a TypeError, see `createProperty_refused`) the freshly created
-property stays behind with the fill values of its initial shape. -/
+overflow, embedded NUL) the freshly created property is removed again. -/
 def createProperty (st : State) (name : Str) (inp : Input) : State × Except Err Unit :=
   if st.props.any (·.name == name) then (st, .error .duplicateName)
   else
@@ -561,7 +562,9 @@ def createProperty (st : State) (name : Str) (inp : Input) : State × Except Err
         | .error e => (st, .error e)
         | .ok d =>
           let r := setValues (newProp st name d n) vals
-          ({ st with props := st.props ++ [r.1], next := st.next + 1 }, r.2)
+          match r.2 with
+          | .error e => (st, .error e)               -- `del properties[name]; raise`
+          | .ok _ => ({ st with props := st.props ++ [r.1], next := st.next + 1 }, .ok ())
 
 /-- `Section.create_section` (`section.py:65-86`) -/
 def createSection (st : State) (name type : Str) : State × Except Err Unit :=
